@@ -1652,12 +1652,16 @@ class Evaluator:
             marks = (len(sm.exits), len(sm.calls), len(sm.hazards), len(sm.loops))
             ok = True
             n = 0
+            # `while True:` without break / return / raise of its own never ends by itself (a generator whose consumer stops asking,
+            # a worker loop): nothing to unroll, it is summarised as a loop at once
+            endless = isinstance(st.test, ast.Constant) and st.test.value is True and not any(
+                isinstance(n_, (ast.Break, ast.Return, ast.Raise)) for b_ in st.body for n_ in ast.walk(b_))
             try:
                 while True:
                     c = self.truth_expr(st.test, fr)
                     if c is False:
                         break
-                    if c is not True or n >= MAX_UNROLL:
+                    if c is not True or n >= MAX_UNROLL or endless:
                         ok = False
                         break
                     n += 1
@@ -2013,6 +2017,20 @@ class Evaluator:
         if isinstance(base, T) and base.op == "classref" and len(base.args) == 1 and "." in base.args[0]:
             cmod, ccls = base.args[0].rsplit(".", 1)
             m = self.prog.modules.get(cmod)
+            if m is not None and attr in ("_value2member_map_", "__members__", "_member_map_", "_member_names_"):
+                mems = self.enum_members(cmod, ccls)
+                if mems is not None:  # the Enum machinery's own tables
+                    if attr == "_member_names_":
+                        return [n_ for n_, _m in mems]
+                    if attr == "_value2member_map_":
+                        d_ = {}
+                        for _n, mv in mems:
+                            v_ = mv.fields.get("value") if isinstance(mv, _Obj) else (int(mv) if isinstance(mv, _EnumInt) else str(mv) if isinstance(mv, _EnumStr) else mv)
+                            if not tm.is_conc(v_) or isinstance(v_, (list, dict)):
+                                return T("attr", (tm._fz(base), attr))
+                            d_.setdefault(v_, mv)
+                        return d_
+                    return {n_: mv for n_, mv in mems}
             if m is not None:
                 return self.ref(self.prog.resolve_chain(cmod, [ccls, attr]))
         if isinstance(base, T) and base.op == "structobj" and attr == "size":
@@ -2766,6 +2784,17 @@ class Evaluator:
                         if e is not None:
                             self.__dict__.setdefault("_inert_calls", set()).add(id(e))  # decided on constants: this call raised nothing
                         return mv
+                if "_missing_" in meths:
+                    # the class's own fallback for values without a member: what it returns is the result (None: ValueError)
+                    c0_, h0_, x0_ = len(fr.summary.calls), len(fr.summary.hazards), len(fr.summary.exits)
+                    r_ = self.call_fn(meths["_missing_"], [T("classref", (modname + "." + cls,)), pos[0]], {}, e, fr)
+                    if (r_ is None or isinstance(r_, (_Obj, _EnumInt, _EnumStr))) and len(fr.summary.hazards) == h0_ and len(fr.summary.exits) == x0_:
+                        del fr.summary.calls[c0_:]  # decided on constants, like the lookup itself
+                        if e is not None:
+                            self.__dict__.setdefault("_inert_calls", set()).add(id(e))
+                    if r_ is None:
+                        return T("raise", ("ValueError",))
+                    return r_
                 if all(tm.is_conc(mv.fields.get("value") if isinstance(mv, _Obj) else mv) for _n, mv in mems):
                     if e is not None:
                         self.__dict__.setdefault("_inert_calls", set()).add(id(e))  # decided on constants: ValueError and nothing else
